@@ -87,7 +87,7 @@ Qed.
 Theorem paired_round_trip : forall gh hex others eb_last gr rex recs std,
   std_size gh = Some std ->
   forallb edim_okb hex = true -> nodupb (extra_names hex) = true ->
-  forallb (fun n => negb (mem_name n (std_names gh))) (extra_names hex) = true ->
+  forallb (fun n => negb (mem_name n (rec_names gh))) (extra_names hex) = true ->
   filter is_eb_vlr others = [] ->
   recs_okb std rex recs = true ->
   gate gh hex gr rex = true ->
@@ -120,7 +120,7 @@ Print Assumptions paired_round_trip.
 Theorem built_header_describes_format : forall gh hex recs others eb_last std,
   std_size gh = Some std ->
   forallb edim_okb hex = true -> nodupb (extra_names hex) = true ->
-  forallb (fun n => negb (mem_name n (std_names gh))) (extra_names hex) = true ->
+  forallb (fun n => negb (mem_name n (rec_names gh))) (extra_names hex) = true ->
   (forall b, In b recs -> len b = std + extras_size hex) -> filter is_eb_vlr others = [] ->
   exists s, init_ex gh hex recs others eb_last = Ok s
     /\ st_extras s = hex
